@@ -8,14 +8,17 @@ from vf.gen import pick_weighted
 
 ID = "C49"
 THEOREMS = ["C49_dowild_total", "C49_dowild_sound_complete", "C49_dowild_codes", "C49_dowild_eq_git",
+            "C49_pathname_sound_complete", "C49_pathname_codes", "C49_globmatch_prefix",
             "C49_last_match_wins", "C49_decision_unique", "C49_excluded_parent", "C49_trim_eq_git", "C49_pattern_eq_git_refuted",
-            "C49_pattern_eq_git_partial"]
+            "C49_names_eq_git_partial", "C49_pattern_eq_git_partial", "C49_pattern_eq_git_positive", "C49_pattern_eq_git_modulo_ancestor",
+            "C49_reincluded_ancestor_refuted"]
 MODEL_FILES = ["Gitignore.v"]
 MODELLED = ("plumbing/format/gitignore: pattern.go ParsePattern (with the repaired trimTrailingSpaces), pattern.Match, simpleNameMatch, "
             "globMatch, wildmatch, dowild (all flags, abort codes, bracket loop, matchPOSIXClass), matcher.go matcher.Match, scope.go "
             "NewScope/Descend/Match/RootPatterns/DirPatterns, dir.go readIgnoreFile incl. the repaired BOM skip (Model/Gitignore.v); spec: git 2.39.5 "
             "dir.c (add_patterns_from_buffer, trim_trailing_spaces, parse_path_pattern, match_basename, match_pathname, last_matching_pattern, "
-            "prep_exclude) and wildmatch.c (Spec/GitIgnore.v), declarative glob semantics (Spec/Glob.v); not modelled: billy filesystem access, "
+            "prep_exclude) and wildmatch.c (Spec/GitIgnore.v), declarative glob semantics of a component incl. POSIX classes (Spec/Glob.v) and of patterns with "
+            "slashes (Spec/PathGlob.v); not modelled: billy filesystem access, "
             "bufio.Scanner's 64 KiB line limit, the multi-byte Unicode spaces of strings.TrimSpace, the deprecated flat ReadPatterns/Matcher walk, "
             "LoadGlobalPatterns/LoadSystemPatterns (config lookup), core.ignorecase; index-out-of-range freedom of dowild is by construction of the "
             "list-based model and tied by the correspondence (a panic of the implementation is always reported), not a separate theorem; model branches "
@@ -25,19 +28,29 @@ TRUSTED = [
     "re-enacted over memfs) vs Model/Gitignore on every case",
     "C-git: Spec/GitIgnore.git_ignored vs `git check-ignore --no-index -v -n -z --stdin` (git 2.39.5) on the cases of every run "
     "(spec_mismatches in the evidence must be 0)",
-    "the direct oracle: the implementation's verdict vs the same git invocation in a scratch repository that holds the ignore files and the paths",
+    "the direct oracle: for every directory and every file of the case's tree, the implementation's verdict through the status walk "
+    "(RootPatterns, NewScope, Descend with DirPatterns, Scope.Match) and through the deprecated flat API (NewMatcher(ReadPatterns).Match, "
+    "not modelled) vs the same git invocation in a scratch repository that holds the ignore files and the paths (directories exist there "
+    "and are queried without a trailing slash: with one, check-ignore takes the empty text after it as the basename)",
+    "theorem instances: on every query whose guards (wide_case, path_ok, no_reincluded_ancestor, evaluated in Coq: Proofs/C49Frag.c49_guard) hold, "
+    "the implementation must agree with the git binary (guard_diffs in the evidence must be 0; a difference there is reported as a violation, never as a finding); "
+    "for every dowild pair whose pattern is in the glob fragment the implementation must agree with the declarative gmatch (Spec/GitIgnore.c49_gmatch)",
 ]
 ASSUMPTIONS = ["git 2.39.5 at /usr/bin/git is the reference (its literal-prefix handling of `foo**/bar` differs from git >= 2.52)",
                "patterns, paths and ignore files are NUL-free; path components are non-empty and contain no slash",
                "core.ignorecase is false (the matcher is case-sensitive; go-git exposes no case folding)"]
 RULE = ("case = a small directory tree, ignore files at the root / in sub-directories / info/exclude made of pattern lines derived "
         "from the tree's names (wildcards, brackets, escapes, ** forms, negation, dir-only, leading/trailing/doubled slashes, trailing "
-        "blanks, comments, CRLF, BOM), queried for every node of the tree; plus (pattern, text) pairs for dowild and (line, domain, path) "
+        "blanks, comments, CRLF, BOM; a dedicated bucket of directory-only patterns followed by blanks / escaped blanks / tabs in the root "
+        "file, a nested file and info/exclude), queried for every node of the tree; plus (pattern, text) pairs for dowild and (line, domain, path) "
         "triples for ParsePattern/Match; non-trivial = some ignore file has a pattern line / the pattern has a glob-special byte; distinct by content")
 LEVEL_NOTE = ("trusted: Coq 8.16.1 kernel; the correspondence harness; S is a transcription of git 2.39.5 validated against the binary on every run. "
-              "Theorems: dowild total; dowild (flags 0) sound and complete for a declarative glob semantics on the fragment literal/?/*/**/escapes/"
-              "bracket sets without POSIX classes, and equal to git's dowild there; the repaired trailing-space rule equals git's; last-match-wins; excluded parent; go-git = git refuted with witnesses "
-              "and proved for ignore files made of plain (non-negated, slash-free) name patterns at every level")
+              "Theorems: dowild total; dowild (flags 0) sound and complete for a declarative glob semantics on everything wildmatch accepts (literal/?/*/**/escapes/"
+              "bracket sets with ranges, negation and POSIX classes), and equal to git's dowild there; git's dowild with WM_PATHNAME sound and complete (abort codes included) "
+              "for a declarative semantics of slash patterns (segments, */? not crossing slashes, **/); go-git's globMatch = prefix matching of segments on the shapes of the fragment; "
+              "the repaired trailing-space rule equals git's; last-match-wins; excluded parent; go-git = git refuted with witnesses "
+              "and proved for ignore files made of name patterns and slash patterns (anchored, inner slashes, **/ groups followed by one segment), "
+              "negation included, on every path none of whose ancestor directories is re-included by a negated pattern (that guard is shown necessary; without it go-git is exactly git with patterns that also match below what they match)")
 
 # ---------------------------------------------------------------- generators
 
@@ -155,7 +168,10 @@ def gen_pattern(rng, tree, base):
     if rng.random() < 0.2:
         line = b"!" + line
     r = rng.random()
-    if r < 0.08:
+    if line.endswith(b"/") and r < 0.35:
+        # a directory-only pattern followed by blanks (git trims before it looks for the slash)
+        line += rng.choice([b" ", b"  ", b"   ", b"\t", b" \t", b"\\ ", b"\\  ", b" \\ "])
+    elif r < 0.08:
         line += b" " * rng.randrange(1, 3)
     elif r < 0.10:
         line += b"\\ "
@@ -188,7 +204,50 @@ def gen_file(rng, tree, base, tier):
     return content
 
 
+DIR_BLANKS = [b" ", b"  ", b"   ", b"\t", b" \t", b"\\ ", b"\\  ", b" \\ ", b""]
+
+
+def gen_dironly_blanks_case(rng, tier):
+    """directory-only patterns followed by trailing blanks / escaped blanks / tabs, in the root file, a nested
+    file and info/exclude, against a tree that has those directories (with files below) and same-named files"""
+    names = rng.sample([b"build", b"cache", b"out", b"tmp", b"a b", b"x"], 3)
+    tree = {}
+    top = rng.choice([b"src", b"sub"])
+    tree[(top,)] = True
+    for i, n in enumerate(names):
+        where = [(), (top,)][i % 2] if rng.random() < 0.7 else ()
+        isdir = rng.random() < 0.8
+        tree[where + (n,)] = isdir
+        if isdir:
+            tree[where + (n, b"f.o")] = False
+            if rng.random() < 0.4:
+                tree[where + (n, b"deep")] = True
+                tree[where + (n, b"deep", b"g")] = False
+    tree[(top, b"keep.c")] = False
+
+    def line(n):
+        n = escape_name(n) if b" " in n else n
+        pre = rng.choice([b"", b"", b"/", b"**/", b"!"])
+        mid = rng.choice([n, n, n[:-1] + b"*", b"?" + n[1:], n + b"/" + b"*" if rng.random() < 0.1 else n])
+        return pre + mid + b"/" + rng.choice(DIR_BLANKS)
+    files = []
+    root_lines = [line(n) for n in rng.sample(names, rng.randrange(1, 3))]
+    if rng.random() < 0.3:
+        root_lines.insert(rng.randrange(len(root_lines) + 1), rng.choice([b"*.o", b"!*.c", b"# c", b""]))
+    if rng.random() < 0.85:
+        files.append({"dir": [], "content": (b"\n".join(root_lines) + rng.choice([b"\n", b"", b"\r\n"])).hex()})
+    if rng.random() < 0.6:
+        files.append({"dir": [top.hex()], "content": (b"\n".join(line(n) for n in rng.sample(names, rng.randrange(1, 3))) + b"\n").hex()})
+    c = {"bucket": "dironly-blanks", "files": files}
+    if rng.random() < 0.4 or not files:
+        c["exclude"] = (b"\n".join(line(n) for n in rng.sample(names, rng.randrange(1, 3))) + b"\n").hex()
+    c["queries"] = [{"path": [x.hex() for x in p], "isdir": d} for p, d in sorted(tree.items())]
+    return c
+
+
 def gen_ignore_case(rng, tier):
+    if rng.random() < 0.15:
+        return gen_dironly_blanks_case(rng, tier)
     tree = gen_tree(rng, tier)
     while not tree:
         tree = gen_tree(rng, tier)
@@ -202,6 +261,116 @@ def gen_ignore_case(rng, tier):
     c = {"bucket": "ignore", "files": files}
     if rng.random() < 0.15:
         c["exclude"] = gen_file(rng, tree, (), tier).hex()
+    c["queries"] = [{"path": [x.hex() for x in p], "isdir": d} for p, d in sorted(tree.items())]
+    return c
+
+
+
+# ---------------------------------------------------------------- generator of the proved fragment
+
+FRAG_CLASSES = [b"[a-c]", b"[!a-c]", b"[^b]", b"[[:alpha:]]", b"[[:digit:]]", b"[[:alnum:]_]", b"[![:upper:]]", b"[[:lower:]][[:punct:]]",
+                b"[[:xdigit:]]", b"[[:space:]x]", b"[]a]", b"[a\\-c]", b"[[:alpha:]-z]", b"[[:]a]", b"[a-\\c]", b"[[:graph:]]", b"[[:cntrl:][:print:]]", b"[[:blank:]a]"]
+
+
+def frag_seg(rng, name, brackets=True):
+    """a glob of the fragment related to one component (no blank, no slash)"""
+    name = bytes(c for c in name if c not in b" \t/") or b"a"
+    esc = b"".join(b"\\" + bytes([c]) if c in b"*?[\\!#" else bytes([c]) for c in name)
+    k = rng.randrange(12)
+    n = len(name)
+    if k <= 2:
+        return esc
+    if k == 3:
+        return b"*"
+    if k == 4:
+        return b"*" + esc[-1:] if esc[-1:] not in (b"\\",) and len(esc) == n else b"*"
+    if k == 5:
+        i = rng.randrange(n)
+        return (name[:i] if not any(c in b"*?[\\!#" for c in name[:i]) else b"") + b"*"
+    if k == 6:
+        i = rng.randrange(n)
+        pre, post = name[:i], name[i + 1:]
+        if any(c in b"*?[\\!#" for c in pre + post):
+            return esc
+        return pre + b"?" + post
+    if k == 7 and brackets:
+        i = rng.randrange(n)
+        pre, post = name[:i], name[i + 1:]
+        if any(c in b"*?[\\!#" for c in pre + post):
+            return esc
+        return pre + rng.choice(FRAG_CLASSES) + post
+    if k == 8:
+        if any(c in b"*?[\\!#" for c in name):
+            return esc
+        return name[:1] + b"*" + name[-1:] if n >= 2 else name + b"*"
+    if k == 9:
+        return rng.choice([b"?", b"??", b"*.c", b"a*", b"*a*", b"?*"])
+    if k == 10 and brackets:
+        return rng.choice(FRAG_CLASSES) + b"*"
+    return esc
+
+
+def gen_frag_pattern(rng, tree, base):
+    paths = [p for p in tree if p[:len(base)] == base and len(p) > len(base)]
+    if paths and rng.random() < 0.9:
+        p = rng.choice(paths)[len(base):]
+    else:
+        p = tuple(rname(rng) for _ in range(rng.randrange(1, 4)))
+    form = pick_weighted(rng, [(4, "name"), (2, "anchored1"), (3, "inner"), (2, "lead**"), (2, "mid**"), (1, "multi**"), (1, "anch**")])
+    if form == "name":
+        line = frag_seg(rng, rng.choice(p))
+    elif form == "anchored1":
+        line = b"/" + frag_seg(rng, p[0])
+    elif form == "inner":
+        i = rng.randrange(len(p))
+        j = min(len(p), i + rng.randrange(2, 4))
+        segs = [frag_seg(rng, s) for s in p[i:j]]
+        if len(segs) < 2:
+            segs.append(frag_seg(rng, rname(rng)))
+        line = (b"/" if rng.random() < 0.4 else b"") + b"/".join(segs)
+    elif form == "lead**":
+        line = b"**/" * rng.randrange(1, 3) + frag_seg(rng, rng.choice(p))
+    elif form == "mid**":
+        i = rng.randrange(len(p))
+        pre = [frag_seg(rng, s) for s in p[:i + 1][-2:]]
+        line = b"/".join(pre) + b"/**/" + frag_seg(rng, rng.choice(p[i:] or p))
+    elif form == "multi**":
+        segs = [frag_seg(rng, s) for s in (p + p + p)[:3]]
+        line = segs[0] + b"/**/" + segs[1] + b"/**/" + segs[2]
+    else:
+        line = b"/**/" + frag_seg(rng, rng.choice(p))
+    if rng.random() < 0.25:
+        line += b"/"
+    if rng.random() < 0.3:
+        line = b"!" + line
+    return line
+
+
+def gen_frag_file(rng, tree, base):
+    lines = []
+    for _ in range(pick_weighted(rng, [(3, 1), (4, 2), (3, 3), (2, 4), (1, 6)])):
+        r = rng.random()
+        if r < 0.05:
+            lines.append(rng.choice([b"#c", b"# a comment", b"#\ttab * !x /", b"# trailing  "]))
+        elif r < 0.08:
+            lines.append(b"")
+        else:
+            lines.append(gen_frag_pattern(rng, tree, base))
+    return b"\n".join(lines) + b"\n"
+
+
+def gen_frag_case(rng, tier):
+    tree = gen_tree(rng, tier)
+    while not tree:
+        tree = gen_tree(rng, tier)
+    dirs = [p for p, d in tree.items() if d]
+    files = [{"dir": [], "content": gen_frag_file(rng, tree, ()).hex()}]
+    rng.shuffle(dirs)
+    for d in sorted(dirs[:pick_weighted(rng, [(5, 0), (3, 1), (2, 2)])]):
+        files.append({"dir": [x.hex() for x in d], "content": gen_frag_file(rng, tree, d).hex()})
+    c = {"bucket": "fragment", "files": files}
+    if rng.random() < 0.15:
+        c["exclude"] = gen_frag_file(rng, tree, ()).hex()
     c["queries"] = [{"path": [x.hex() for x in p], "isdir": d} for p, d in sorted(tree.items())]
     return c
 
@@ -246,6 +415,8 @@ def git_verdicts(tmp, tpl, case):
             os.makedirs(dd, exist_ok=True)
             with open(os.path.join(dd, b".gitignore"), "wb") as fh:
                 fh.write(bytes.fromhex(f["content"]))
+        # directories are queried WITHOUT a trailing slash: they exist in the scratch tree, so git finds their type
+        # itself; with a slash check-ignore takes the text after it (nothing) as the basename and answers differently
         inp = b"".join(b"/".join(bytes.fromhex(x) for x in q["path"]) + b"\0" for q in case["queries"])
         env = dict(GITENV, HOME=tmp, XDG_CONFIG_HOME=os.path.join(tmp, "xdg"))
         p = subprocess.run(["/usr/bin/git", "check-ignore", "--no-index", "-v", "-n", "-z", "--stdin"], input=inp, cwd=d,
@@ -451,6 +622,8 @@ def classify(case, qi, impl_v, git_v, git_detail, why, model_v):
             return cls
     if who == "go" and neg and why["anc"] and not impl_v and git_v:
         return "negated-ancestor"
+    if who == "go" and not neg and why["anc"] and impl_v and not git_v and body_of(raw).count(b"/") >= 1:
+        return "dir-pattern-below-reincluded-dir"
     return None
 
 
@@ -478,10 +651,26 @@ class Ignore(Suite):
     def gen(self, rng, n, tier):
         cases = []
         for _ in range(n):
-            c = gen_ignore_case(rng, tier)
+            c = gen_frag_case(rng, tier) if rng.random() < 0.4 else gen_ignore_case(rng, tier)
             c["op"] = "ignore"
             cases.append(c)
         return cases
+
+    def guards(self, ctx, cases):
+        """{case id: (wide_case, positive_case, [guard of query i])}: the guards of C49_pattern_eq_git_partial, evaluated in Coq"""
+        if not hasattr(ctx, "c49_guard"):
+            ctx.c49_guard = {}
+        todo = [c for c in cases if self.key(c) not in ctx.c49_guard]
+        if todo:
+            outs = ctx.coq_eval("From GoGit Require Import Proofs.C49Frag.", ["c49_guard " + coq_case_args(c) for c in todo], chunk=self.coq_chunk)
+            for c, o in zip(todo, outs):
+                toks = o.split()[1:-1] if o and o.startswith("(") else None
+                if not toks or len(toks) != 2 + len(c["queries"]) or any(t not in ("true", "false") for t in toks):
+                    ctx.c49_guard[self.key(c)] = None
+                else:
+                    b = [t == "true" for t in toks]
+                    ctx.c49_guard[self.key(c)] = (b[0], b[1], b[2:])
+        return {c["id"]: ctx.c49_guard[self.key(c)] for c in cases}
 
     def model_expr(self, c):
         return "c49_ignore " + coq_case_args(c)
@@ -502,8 +691,10 @@ class Ignore(Suite):
         return {c["id"]: ctx.c49_git[self.key(c)] for c in cases}
 
     def oracle(self, ctx, cases, impl, model):
-        """the property itself: go-git's verdict (Scope walk) == git check-ignore's, for every path of the case"""
+        """the property itself: go-git's verdict (Scope walk as a status walk does it, and the flat Matcher) ==
+        git check-ignore's, for every directory and every file of the case's tree"""
         git = self.git_all(ctx, cases)
+        guards = self.guards(ctx, cases)
         fails = {}
         for c in cases:
             r = impl.get(c["id"])
@@ -512,7 +703,9 @@ class Ignore(Suite):
                 fails[c["id"]] = "class=?; no verdicts from the implementation: %s" % (r["out"][:100] if r else None)
                 continue
             mv = parse_bools(model.get(c["id"]))
-            why = r.get("extra") or [None] * len(iv)
+            ex = r.get("extra") or {}
+            why = ex.get("why") or [None] * len(iv)
+            flat = ex.get("flat")
             bad = []
             differs = {}
             for qi, (q, g) in enumerate(zip(c["queries"], git[c["id"]])):
@@ -531,7 +724,32 @@ class Ignore(Suite):
                 cls = classify(c, root, iv[root], gr[0], gr[1], why[root], mv[root] if mv and len(mv) == len(iv) else None)
                 if mv and len(mv) == len(iv) and mv[qi] != iv[qi]:
                     cls = None
+                gd = guards.get(c["id"])
+                if gd is not None and gd[0] and gd[2][qi]:
+                    cls = None                  # inside the proved fragment: a difference is never a known finding
                 bad.append((cls, qi, g))
+            # the deprecated flat API, NewMatcher(ReadPatterns(fs)).Match, on the same tree: where it answers like
+            # the Scope walk the comparison above covers it; where it does not, only the documented limitation is
+            # known (it cannot express an excluded parent: a path below a directory git ignores is re-included)
+            if flat is None or len(flat) != len(iv):
+                bad.append((None, 0, (None, "flat matcher gave no verdicts: %s" % ex.get("flat_err"))))
+            else:
+                ign_dirs = {tuple(q["path"]) for q, g in zip(c["queries"], git[c["id"]]) if q["isdir"] and g is not None and g[0]}
+                for qi, (q, g) in enumerate(zip(c["queries"], git[c["id"]])):
+                    if g is None or flat[qi] == g[0] or flat[qi] == iv[qi]:
+                        continue
+                    below = any(tuple(q["path"][:k]) in ign_dirs for k in range(1, len(q["path"])))
+                    cls = "flat-matcher-excluded-parent" if (not flat[qi] and g[0] and below) else None
+                    if cls is None:
+                        # ReadPatterns decides which ignore files to read with the same matcher: a directory on which
+                        # go-git and git already differ (reported above) explains a difference below it
+                        for k in range(1, len(q["path"])):
+                            if tuple(q["path"][:k]) in differs:
+                                root = differs[tuple(q["path"][:k])]
+                                gr = git[c["id"]][root]
+                                cls = classify(c, root, iv[root], gr[0], gr[1], why[root], mv[root] if mv and len(mv) == len(iv) else None)
+                                break
+                    bad.append((cls, qi, (g[0], "flat Matcher says %s; %s" % (flat[qi], g[1]))))
             if bad:
                 bad.sort(key=lambda b: (b[0] is not None, b[1]))
                 cls, qi, g = bad[0]
@@ -562,7 +780,34 @@ class Ignore(Suite):
                     if bad <= 5:
                         ctx.notes.append("spec_mismatch S vs git on case %s query %d: S=%s git=%s" % (
                             {k: v for k, v in c.items() if k in ("files", "exclude")}, qi, sv[qi] if sv and qi < len(sv) else None, g))
-        return {"spec_vs_git_queries": n, "spec_mismatches": bad}
+        # theorem instances: guards hold => the implementation agrees with the git binary
+        guards = self.guards(ctx, cases)
+        gq = gc = gp = gdiff = gneg = 0
+        for c in cases:
+            gd = guards.get(c["id"])
+            r = impl.get(c["id"])
+            iv = parse_bools(r["out"]) if r else None
+            if gd is None:
+                ctx.notes.append("guard evaluation failed on case %s" % c["id"])
+                gdiff += 1
+                continue
+            if not gd[0]:
+                continue
+            gc += 1
+            gp += gd[1]
+            neg = any(l.startswith(b"!") for f in c["files"] for l in bytes.fromhex(f["content"]).split(b"\n"))
+            for qi, g in enumerate(git[c["id"]]):
+                if not gd[2][qi] or g is None:
+                    continue
+                gq += 1
+                gneg += neg
+                if iv is None or qi >= len(iv) or iv[qi] != g[0]:
+                    gdiff += 1
+                    if gdiff <= 5:
+                        ctx.notes.append("guard_diff: guards hold but go-git != git on case %s query %d" % (
+                            {k: v for k, v in c.items() if k in ("files", "exclude")}, qi))
+        return {"spec_vs_git_queries": n, "spec_mismatches": bad, "guard_cases": gc, "guard_positive_cases": gp,
+                "guard_queries": gq, "guard_queries_with_negation": gneg, "guard_diffs": gdiff}
 
     def show(self, c):
         d = dict(c)
@@ -595,7 +840,13 @@ def gen_glob_fragment(rng):
             neg = rng.choice([b"", b"", b"!", b"^"])
             els = b""
             for _ in range(rng.randrange(1, 4)):
-                if rng.random() < 0.4:
+                r = rng.random()
+                if r < 0.25:
+                    els += rng.choice([b"[:alpha:]", b"[:digit:]", b"[:alnum:]", b"[:upper:]", b"[:lower:]", b"[:punct:]", b"[:space:]", b"[:blank:]",
+                                       b"[:xdigit:]", b"[:graph:]", b"[:print:]", b"[:cntrl:]", b"[:", b"[:a", b"[:alpha:]-z", b"[:digit:]-"])
+                elif r < 0.3:
+                    els += rng.choice([b"a-\\c", b"\\a-c", b"\\]", b"\\-", b"a\\-c"])
+                elif r < 0.55:
                     els += rng.choice([b"a-c", b"b-b", b"c-a", b"a-z", b"0-9", b"!-/"])
                 else:
                     els += rng.choice([b"a", b"b", b"c", b"x", b".", b"*", b"?", b"!", b"^", b":"])
@@ -621,7 +872,7 @@ def gen_text_for(rng, p):
             j = p.find(b"]", i + 2)
             if j < 0:
                 j = len(p) - 1
-            out += bytes([rng.choice(b"abcx.!" + p[i + 1:j].replace(b"-", b"").replace(b"\\", b"") + b"a")])
+            out += bytes([rng.choice(b"abcx.!1A_ \t" + p[i + 1:j].replace(b"-", b"").replace(b"\\", b"") + b"a")])
             i = j
         else:
             out += c
@@ -646,16 +897,25 @@ WILD_FIXED = [
 ]
 
 
+POSIX_CLASSES = [b"alnum", b"alpha", b"blank", b"cntrl", b"digit", b"graph", b"lower", b"print", b"punct", b"space", b"upper", b"xdigit"]
+# both sides of every range edge of every class (sane-ctype.h), and the first bytes with the high bit
+CLASS_EDGES = [0x01, 0x08, 0x09, 0x0a, 0x0b, 0x0c, 0x0d, 0x0e, 0x1f, 0x20, 0x21, 0x2f, 0x30, 0x39, 0x3a, 0x40, 0x41, 0x46, 0x47, 0x5a, 0x5b,
+               0x60, 0x61, 0x66, 0x67, 0x7a, 0x7b, 0x7e, 0x7f, 0x80, 0xff]
+CLASS_FIXED = [(b"[[:" + c + b":]]", bytes([b])) for c in POSIX_CLASSES for b in CLASS_EDGES] + \
+              [(b"[![:" + c + b":]]", bytes([b])) for c in POSIX_CLASSES for b in (0x20, 0x30, 0x41, 0x61, 0x7e)]
+
+
 class Wild(Suite):
     name = "dowild"
     go_cmd = "c49"
     coq_imports = "From GoGit Require Import Model.Gitignore Spec.GitIgnore."
-    quick_n = 400
+    quick_n = 860
     thorough_n = 8000
     coq_chunk = 150
 
     def gen(self, rng, n, tier):
         cases = [{"bucket": "fixed", "op": "dowild", "p": p.hex(), "t": t.hex(), "flags": 0} for p, t in WILD_FIXED]
+        cases += [{"bucket": "class-edge", "op": "dowild", "p": p.hex(), "t": t.hex(), "flags": 0} for p, t in CLASS_FIXED]
         if tier == "thorough":
             # small-scope exhaustion: every pattern of length <= 3 over the special bytes, every text of length <= 2
             from vf.gen import all_strings
@@ -754,7 +1014,7 @@ class Wild(Suite):
 
     def extra(self, ctx, cases, impl, model):
         git = self.git_batch(ctx, cases)
-        sub = [c for c in cases if c["id"] in git][:250 if ctx.tier == "quick" else 3000]
+        sub = [c for c in cases if c["id"] in git][:700 if ctx.tier == "quick" else 3000]
         outs = ctx.coq_eval(self.coq_imports, ['c49_git_wild "%s" "%s"' % (c["p"], c["t"]) for c in sub])
         bad = 0
         for c, o in zip(sub, outs):
@@ -762,6 +1022,20 @@ class Wild(Suite):
                 bad += 1
                 if bad <= 5:
                     ctx.notes.append("spec_mismatch match_basename vs git on %r %r: S=%s git=%s" % (bytes.fromhex(c["p"]), bytes.fromhex(c["t"]), o, git[c["id"]]))
+        # theorem instances: pattern in the glob fragment => the implementation decides like the declarative gmatch
+        gsub = cases[:900 if ctx.tier == "quick" else 4000]
+        gouts = ctx.coq_eval(self.coq_imports, ['c49_gmatch "%s" "%s"' % (c["p"], c["t"]) for c in gsub])
+        gin = gbad = gcls = 0
+        for c, o in zip(gsub, gouts):
+            if o not in ("true", "false"):
+                continue
+            gin += 1
+            gcls += b"[:" in bytes.fromhex(c["p"])
+            r = impl.get(c["id"])
+            if r is None or (r["out"] == "( ok match )") != (o == "true"):
+                gbad += 1
+                if gbad <= 5:
+                    ctx.notes.append("gmatch_diff: pattern %r text %r: gmatch=%s dowild=%s" % (bytes.fromhex(c["p"]), bytes.fromhex(c["t"]), o, r and r["out"]))
         # dead-code parity (not an alarm): the WM_PATHNAME / WM_CASEFOLD branches of the port against the model
         rng = __import__("random").Random(ctx.seed + 1)
         dc = []
@@ -775,7 +1049,8 @@ class Wild(Suite):
         dead = sum(1 for c, o in zip(dc, do) if (di.get(c["id"]) or {}).get("out") != o)
         if dead:
             ctx.notes.append("dead-code parity: %d of %d pathname/casefold dowild cases differ between port and model (unused by gitignore)" % (dead, len(dc)))
-        return {"spec_vs_git_pairs": len(sub), "spec_mismatches": bad, "deadcode_parity_cases": len(dc), "deadcode_parity_diffs": dead}
+        return {"spec_vs_git_pairs": len(sub), "spec_mismatches": bad, "deadcode_parity_cases": len(dc), "deadcode_parity_diffs": dead,
+                "fragment_pairs": gin, "fragment_pairs_with_posix_class": gcls, "gmatch_diffs": gbad}
 
 
 # ---------------------------------------------------------------- ParsePattern / pattern.Match suite (tie only)
